@@ -120,6 +120,7 @@ type pkgInfo struct {
 	tag        string                   // "func" for the root package, "func.<dir>" otherwise
 	fieldElem  map[string]string        // "T.f" -> element type name of the field's declared type (pointers, slices, arrays, map values unwrapped)
 	external   map[string]bool          // "T.f": the element type belongs to another package (pkg.Type)
+	selfSync   map[string]bool          // "T.f": sync/atomic value, sync.Map / Pool / Once / WaitGroup, channel: safe for concurrent use by itself
 	chanField  map[string]bool          // field NAME whose declared type is a channel
 	spawners   map[string]bool          // function / method names that start a goroutine and do not join it
 	joiners    map[string]bool          // function / method names that receive from a channel field until it is closed
@@ -200,7 +201,7 @@ func load(dir string, tag string) *pkgInfo {
 	p := &pkgInfo{structs: map[string]*ast.StructType{}, interfaces: map[string]*ast.InterfaceType{},
 		methods: map[string]*ast.FuncDecl{}, byName: map[string][]string{}, mutexField: map[string]bool{},
 		globals: map[string]bool{}, funcs: map[string]*ast.FuncDecl{}, tag: tag,
-		fieldElem: map[string]string{}, external: map[string]bool{},
+		fieldElem: map[string]string{}, external: map[string]bool{}, selfSync: map[string]bool{},
 		chanField: map[string]bool{}, spawners: map[string]bool{}, joiners: map[string]bool{}}
 	for _, pkg := range pkgs {
 		for _, f := range pkg.Files {
@@ -233,6 +234,11 @@ func load(dir string, tag string) *pkgInfo {
 									p.fieldElem[ts.Name.Name+"."+n.Name] = et
 									if strings.Contains(et, ".") {
 										p.external[ts.Name.Name+"."+n.Name] = true
+									}
+									_, isChan := fl.Type.(*ast.ChanType)
+									direct := typeName(fl.Type) // not through a slice or map: the field itself is the synchronised object
+									if isChan || strings.HasPrefix(direct, "atomic.") || direct == "sync.Map" || direct == "sync.Pool" || direct == "sync.Once" || direct == "sync.WaitGroup" {
+										p.selfSync[ts.Name.Name+"."+n.Name] = true
 									}
 								}
 								tn := typeName(fl.Type)
@@ -1022,6 +1028,7 @@ func main() {
 	var mutexPairs []string
 	methodNames := map[string]bool{}
 	var externalFields []string
+	var selfSyncFields []string
 	for _, dir := range dirs {
 		tag := "func"
 		if dir != "." {
@@ -1040,6 +1047,9 @@ func main() {
 		}
 		for f := range p.external {
 			externalFields = append(externalFields, q(f))
+		}
+		for f := range p.selfSync {
+			selfSyncFields = append(selfSyncFields, q(f))
 		}
 		perStruct := map[string][]string{}
 		for mf := range p.mutexField {
@@ -1138,6 +1148,12 @@ func main() {
 	sb.WriteString("Definition gen_external : list string := [")
 	sort.Strings(externalFields)
 	sb.WriteString(strings.Join(externalFields, "; "))
+	sb.WriteString("].\n\n")
+	// fields that are safe for concurrent use by themselves (sync/atomic values, sync.Map, sync.Pool,
+	// sync.Once, sync.WaitGroup, channels)
+	sb.WriteString("Definition gen_selfsync : list string := [")
+	sort.Strings(selfSyncFields)
+	sb.WriteString(strings.Join(selfSyncFields, "; "))
 	sb.WriteString("].\n\n")
 	sb.WriteString("Definition gen_entry (n : string) : stmt :=\n  match lookup_fun gen_funs n with Some s => s | None => Unsupported (\"missing function \" ++ n) end.\n\n")
 	sort.Strings(pairs)
